@@ -3,10 +3,10 @@
       that produce the same contents are indistinguishable), and loads of scripts with
       disjoint keys commute;
    2. schedules: a generator is resumed under a sequence of engines (the engine may be changed
-      between two answers).  The facts of a call are those of the engine at its first
-      resumption, its definitions are looked up in the engine current when the facts are
-      exhausted, and from then on the call keeps these definitions whatever happens to the
-      engine. *)
+      between two answers).  A call is made at its first resumption: its facts AND its
+      definitions are those of the engine of that moment, whatever happens to the engine
+      while the call is suspended (on a fact or inside a definition).  Calls made from the
+      body of a definition are new calls, made when the body reaches them. *)
 From Coq Require Import String.
 From Coq Require Import List Arith NArith Bool Lia.
 Import ListNotations.
@@ -129,6 +129,9 @@ Fixpoint run_sched (es : list engine) (g : gen) : list store * option fin :=
 Lemma run_sched_first e r g g' : g e = g' e -> run_sched (e :: r) g = run_sched (e :: r) g'.
 Proof. intros H. simpl. rewrite H. reflexivity. Qed.
 
+Lemma run_sched_ext es g g' : (forall e, g e = g' e) -> run_sched es g = run_sched es g'.
+Proof. intros H. destruct es as [|e r]; [reflexivity|]. apply run_sched_first. apply H. Qed.
+
 Lemma run_sched_smap h es : forall g,
   run_sched es (fun e => smap h (g e)) = (map h (fst (run_sched es g)), snd (run_sched es g)).
 Proof.
@@ -137,42 +140,77 @@ Proof.
   rewrite IH. destruct (run_sched r k). reflexivity.
 Qed.
 
-Lemma facts_sched fs : forall args s after es0 e' es,
-  length es0 = length (fact_answers fs args s) ->
-  run_sched (es0 ++ e' :: es) (facts_gen fs args s after) =
-  (fact_answers fs args s ++ fst (run_sched (e' :: es) after), snd (run_sched (e' :: es) after)).
+(* the fact phase under ANY schedule: one resumption per matching fact, the continuation gets
+   what is left of the schedule; a schedule that ends earlier leaves the call suspended *)
+Lemma facts_sched fs : forall args s after es,
+  run_sched es (facts_gen fs args s after) =
+  let fa := fact_answers fs args s in
+  if length es <=? length fa then (firstn (length es) fa, None)
+  else let r := run_sched (skipn (length fa) es) after in (fa ++ fst r, snd r).
 Proof.
-  induction fs as [|f fs IH]; intros args s after es0 e' es Hlen.
-  - destruct es0; [|discriminate]. simpl. destruct (after e'); [reflexivity|].
-    destruct (run_sched es k); reflexivity.
-  - unfold fact_answers in *. cbn [flat_map] in *.
+  induction fs as [|f fs IH]; intros args s after es.
+  - cbn [fact_answers flat_map length skipn app].
+    rewrite (run_sched_ext es (facts_gen [] args s after) after) by reflexivity.
+    destruct es as [|e r]; [reflexivity|]. cbn [length Nat.leb].
+    destruct (run_sched (e :: r) after); reflexivity.
+  - unfold fact_answers in *. cbn [flat_map].
     destruct (match_fact s args f) as [s'|] eqn:Em.
-    + destruct es0 as [|e0 es0]; [discriminate|]. simpl in Hlen. injection Hlen as Hlen.
-      simpl. rewrite Em.
+    + destruct es as [|e r]; [reflexivity|].
+      cbn [run_sched facts_gen]. rewrite Em.
       change (fun e'0 : engine => facts_gen fs args s after e'0) with (facts_gen fs args s after).
-      rewrite (IH args s after es0 e' es Hlen). reflexivity.
-    + cbn [app] in *. rewrite <- (IH args s after es0 e' es Hlen).
-      destruct es0 as [|e0 es0]; simpl; rewrite Em; reflexivity.
+      rewrite (IH args s after r). cbn [app length Nat.leb firstn skipn].
+      destruct (length r <=? _); reflexivity.
+    + cbn [app]. rewrite <- (IH args s after es). apply run_sched_ext.
+      intros e. cbn [facts_gen]. rewrite Em. reflexivity.
 Qed.
 
-(* THE MOMENT OF RESOLUTION.  A call is resumed under the engines es0 ++ e' :: es, where es0
-   has one engine per fact answer.  Its fact answers are those of the engine of the FIRST
-   resumption; the definitions are looked up in e', the engine current when the facts were
-   exhausted - not in the engine of the moment the call was started. *)
-Theorem late_resolution f name args nx s es0 e' es :
-  let facts := fact_answers (db_get (e_db (hd e' es0)) (name, length args)) args s in
+(* THE MOMENT OF RESOLUTION, for every schedule e0 :: es.  Everything a call takes from the
+   engine it takes from e0, the engine of its FIRST resumption: the fact list of name/N and the
+   result of the lookup (blacklist, '<name>_<N>', else '<name>_n').  The later engines are only
+   handed on: to nobody while the facts are yielded, then to the bodies of the definitions that
+   were looked up in e0 (a body that makes a call makes it in the engine of that moment). *)
+Theorem resolution_at_first_resumption f name args nx s e0 es :
+  let facts := fact_answers (db_get (e_db e0) (name, length args)) args s in
+  let fn := lookup_phase (e_ctx e0) name (length args) in
+  run_sched (e0 :: es) (query_gen (S f) name args nx s) =
+  if length es <? length facts
+  then (map (prune nx) (firstn (S (length es)) facts), None)        (* still in the facts *)
+  else let r := run_sched (skipn (length facts) (e0 :: es)) (call_phase (query_gen f) fn args nx s) in
+       (map (prune nx) (facts ++ fst r), snd r).
+Proof.
+  intros facts fn.
+  rewrite (run_sched_first e0 es (query_gen (S f) name args nx s)
+             (fun e => smap (prune nx) (facts_gen (db_get (e_db e0) (name, length args)) args s
+                                           (call_phase (query_gen f) fn args nx s) e))) by reflexivity.
+  rewrite run_sched_smap, facts_sched. fold facts. cbv zeta.
+  change (length (e0 :: es) <=? length facts) with (length es <? length facts).
+  destruct (length es <? length facts); reflexivity.
+Qed.
+
+(* the same, split at the moment the facts run out: es0 has one engine per fact answer, e' is the
+   engine current when the call of the definitions happens - it gets the definitions of the
+   engine of the first resumption (hd e' es0), not those of e' *)
+Theorem resolution_moment f name args nx s es0 e' es :
+  let e0 := hd e' es0 in
+  let facts := fact_answers (db_get (e_db e0) (name, length args)) args s in
+  let fn := lookup_phase (e_ctx e0) name (length args) in
   length es0 = length facts ->
   run_sched (es0 ++ e' :: es) (query_gen (S f) name args nx s) =
-  let r := run_sched (e' :: es) (fun_phase (query_gen f) name args nx s) in
+  let r := run_sched (e' :: es) (call_phase (query_gen f) fn args nx s) in
   (map (prune nx) (facts ++ fst r), snd r).
 Proof.
-  intros facts Hlen.
-  assert (Hfirst : run_sched (es0 ++ e' :: es) (query_gen (S f) name args nx s) =
-                   run_sched (es0 ++ e' :: es)
-                     (fun e => smap (prune nx) (facts_gen (db_get (e_db (hd e' es0)) (name, length args)) args s
-                                                 (fun_phase (query_gen f) name args nx s) e))).
-  { destruct es0 as [|e0 es0]; apply run_sched_first; reflexivity. }
-  rewrite Hfirst, run_sched_smap, facts_sched by exact Hlen. reflexivity.
+  intros e0 facts fn Hlen.
+  assert (Hsplit : exists tl, es0 ++ e' :: es = e0 :: tl /\ length tl = length es0 + length es).
+  { unfold e0. destruct es0 as [|x es0]; simpl.
+    - exists es. auto.
+    - exists (es0 ++ e' :: es). split; [reflexivity|]. rewrite app_length. simpl. lia. }
+  destruct Hsplit as [tl [Htl Hl]].
+  rewrite Htl, resolution_at_first_resumption. fold facts. fold fn.
+  assert (Hlt : length tl <? length facts = false) by (apply Nat.ltb_ge; lia).
+  rewrite Hlt, <- Htl, <- Hlen.
+  assert (Hskip : skipn (length es0) (es0 ++ e' :: es) = e' :: es).
+  { rewrite skipn_app, skipn_all, Nat.sub_diag. reflexivity. }
+  rewrite Hskip. reflexivity.
 Qed.
 
 (* engine-independent generators *)
@@ -188,6 +226,19 @@ Proof.
   rewrite (IH r2 k1 k2 Hk); [reflexivity|]. simpl in Hl. congruence.
 Qed.
 
+Lemma sim_yield_inv s1 s2 k1 k2 :
+  sim (Yield s1 k1) (Yield s2 k2) -> forall e1 e2, sim (k1 e1) (k2 e2).
+Proof. intros H. inversion H; subst. assumption. Qed.
+
+(* a generator whose first step, taken under e0, no longer depends on the engine *)
+Lemma sim_run_after_first e0 es1 es2 g :
+  sim (g e0) (g e0) -> length es1 = length es2 -> run_sched (e0 :: es1) g = run_sched (e0 :: es2) g.
+Proof.
+  intros Hs Hl. simpl. destruct (g e0) as [f|s k]; [reflexivity|].
+  rewrite (sim_run es1 es2 k k); [reflexivity | | exact Hl].
+  exact (sim_yield_inv s s k k Hs).
+Qed.
+
 Lemma sim_append st1 st2 : sim st1 st2 -> forall a1 a2,
   (forall fi e1 e2, sim (a1 fi e1) (a2 fi e2)) ->
   forall e1 e2, sim (append st1 a1 e1) (append st2 a2 e2).
@@ -195,6 +246,20 @@ Proof.
   induction 1 as [f | s k1 k2 Hk IH]; intros a1 a2 Ha e1 e2; simpl.
   - apply Ha.
   - constructor. intros e1' e2'. apply IH. exact Ha.
+Qed.
+
+Lemma sim_smap h st1 st2 : sim st1 st2 -> sim (smap h st1) (smap h st2).
+Proof.
+  induction 1 as [f | s k1 k2 Hk IH]; simpl; constructor. intros e1 e2. apply IH.
+Qed.
+
+Lemma sim_facts fs args s after1 after2 :
+  (forall e1 e2, sim (after1 e1) (after2 e2)) ->
+  forall e1 e2, sim (facts_gen fs args s after1 e1) (facts_gen fs args s after2 e2).
+Proof.
+  intros Ha. induction fs as [|f fs IH]; intros e1 e2; cbn [facts_gen]; [apply Ha|].
+  destruct (match_fact s args f) as [s'|]; [|apply IH].
+  constructor. exact IH.
 Qed.
 
 Definition callfree_goal (g : goal) : bool := match g with GCall _ _ => false | _ => true end.
@@ -237,12 +302,23 @@ Section Indep.
     - unfold def_gen. apply clauses_sim. exact Hd.
     - intros [| | |] e1' e2'; try constructor; apply IH; exact Hcf.
   Qed.
+
+  (* what a call took from the context, as a list of definitions *)
+  Definition fn_defs (fn : option (list def)) : list def := match fn with Some ds => ds | None => [] end.
+
+  Lemma call_phase_sim fn : forallb callfree (fn_defs fn) = true -> forall args nx s e1 e2,
+    sim (call_phase call1 fn args nx s e1) (call_phase call2 fn args nx s e2).
+  Proof.
+    intros Hcf args nx s e1 e2. destruct fn as [ds|]; cbn [call_phase]; [|constructor].
+    destruct (forallb (params_ok (length args)) ds); [|constructor].
+    apply chain_sim. exact Hcf.
+  Qed.
 End Indep.
 
 (* A SUSPENDED CALL KEEPS WHAT IT RESOLVED.  Once the chain ds has been taken from the context,
    its answers are the same under every later history of the engine (loads with or without
    overwrite, register, clear, assert).  Stated for definitions whose bodies make no calls -
-   calls made from a body are new calls and are resolved when they are made (late_resolution). *)
+   calls made from a body are new calls and are resolved when they are made. *)
 Theorem resolved_call_keeps_definitions call ds args nx s es1 es2 :
   forallb callfree ds = true -> length es1 = length es2 ->
   run_sched es1 (chain_gen call ds args nx s) = run_sched es2 (chain_gen call ds args nx s).
@@ -263,24 +339,55 @@ Proof.
     rewrite Ed. reflexivity.
 Qed.
 
-(* The strict reading of "a call resolves at the moment it is made" is FALSE of the code: a call
-   that is suspended on one of its facts takes its definitions from the context of the moment
-   the facts run out.  Witness: p/1 has the fact p(f) and the definition p(old); the call is
-   started, yields f, the definition is replaced by p(new) (load with overwrite), the call is
-   resumed: it answers new, not old.  (Both definitions make no calls.) *)
+(* the definitions the call name/N takes from the engine (none for an API name) *)
+Definition call_defs (e : engine) (name : str) (n : nat) : list def :=
+  fn_defs (lookup_phase (e_ctx e) name n).
+
+(* CALL-TIME RESOLUTION.  "A call resolves at the moment it is made": a call whose definitions
+   (those of the engine e0 of its first resumption) make no calls gives the same answers under
+   EVERY later history of the engine - es1, es2 are arbitrary: facts asserted, definitions
+   replaced / combined / registered, everything cleared, while the call is suspended on one of
+   its facts or inside one of its definitions.  (A definition that makes calls makes new calls;
+   each of them is resolved in the same way at its own first resumption:
+   resolution_at_first_resumption has no call-free hypothesis.) *)
+Theorem call_time_resolution f name args nx s e0 es1 es2 :
+  forallb callfree (call_defs e0 name (length args)) = true ->
+  length es1 = length es2 ->
+  run_sched (e0 :: es1) (query_gen (S f) name args nx s) =
+  run_sched (e0 :: es2) (query_gen (S f) name args nx s).
+Proof.
+  intros Hcf Hl. apply sim_run_after_first; [|exact Hl].
+  cbn [query_gen]. unfold query_body. apply sim_smap. apply sim_facts.
+  intros e1 e2. apply call_phase_sim. exact Hcf.
+Qed.
+
+(* ... so they are the answers computed in e0 alone: the facts of name/N in e0, in order, then
+   the answers of the definitions e0 holds for name/N (lookup_spec), as soon as the schedule
+   is long enough to reach the end of the call *)
+Theorem call_time_resolution_answers f name args nx s e0 es :
+  forallb callfree (call_defs e0 name (length args)) = true ->
+  let r := drain e0 (query_gen (S f) name args nx s e0) in
+  length (fst r) <= length es ->
+  run_sched (e0 :: es) (query_gen (S f) name args nx s) = (fst r, Some (snd r)).
+Proof.
+  intros Hcf r Hlen.
+  rewrite (call_time_resolution f name args nx s e0 es (repeat e0 (length es)) Hcf)
+    by (rewrite repeat_length; reflexivity).
+  change (e0 :: repeat e0 (length es)) with (repeat e0 (S (length es))).
+  apply run_sched_const; [fold r; lia | reflexivity].
+Qed.
+
+(* The history that used to refute call-time resolution (before the repair of YP.query the
+   definitions were looked up when the facts ran out): p/1 has the fact p(f) and the definition
+   p(old); the call is started and yields f; the definition is replaced by p(new) (load with
+   overwrite); the call is resumed: it answers old, and a call made now answers new. *)
 Local Open Scope string_scope.
 Definition wit_def (a : string) : def := mkDef (Some 1) [mkClause 0 [GUnify 0 (d a)]].
 Definition wit_e0 : engine := mkEngine [((d "p", 1), [[d "f"]])] [(mkkey (d "p") (AFix 1), [wit_def "old"])].
 Definition wit_e1 : engine := mkEngine [((d "p", 1), [[d "f"]])] [(mkkey (d "p") (AFix 1), [wit_def "new"])].
 
-Lemma call_time_resolution_refuted :
-  exists e0 e1 name args nx,
-    e_db e0 = e_db e1 /\
-    forallb callfree (defs_of (e_ctx e0) name (length args)) = true /\
-    forallb callfree (defs_of (e_ctx e1) name (length args)) = true /\
-    run_sched [e0; e1; e1] (query_gen 2 name args nx []) <>
-    run_sched [e0; e0; e0] (query_gen 2 name args nx []).
-Proof.
-  exists wit_e0, wit_e1, (d "p"), [0], 1. repeat split; try reflexivity.
-  vm_compute. discriminate.
-Qed.
+Example call_time_resolution_witness :
+  forallb callfree (call_defs wit_e0 (d "p") 1) = true /\
+  run_sched [wit_e0; wit_e1; wit_e1] (query_gen 2 (d "p") [0] 1 []) = ([[(0, d "f")]; [(0, d "old")]], Some Norm) /\
+  run_sched [wit_e1; wit_e1; wit_e1] (query_gen 2 (d "p") [0] 1 []) = ([[(0, d "f")]; [(0, d "new")]], Some Norm).
+Proof. repeat split; vm_compute; reflexivity. Qed.
